@@ -83,6 +83,139 @@ def with_form(tree):
     return n
 
 
+class _SmallForms(ast.NodeTransformer):
+    """one spelling for a few pairs of equivalent statements / expressions:
+         with contextlib.suppress(E): BODY        ->  try: BODY  except E: pass
+         for k in d.keys()  (also in comprehensions)  ->  for k in d
+         isinstance(x, A) or isinstance(x, B)     ->  isinstance(x, (A, B))
+         X.update({K: V})   (one pair, a statement)   ->  X[K] = V
+         X.pop(K)           (a statement, no default) ->  del X[K]
+    """
+
+    def visit_With(self, node):
+        self.generic_visit(node)
+        if len(node.items) == 1 and node.items[0].optional_vars is None:
+            c = node.items[0].context_expr
+            if isinstance(c, ast.Call) and ast.unparse(c.func) in ('contextlib.suppress', 'suppress') and c.args and \
+                    not c.keywords:
+                typ = c.args[0] if len(c.args) == 1 else ast.Tuple(list(c.args), ast.Load())
+                h = ast.ExceptHandler(typ, None, [ast.Pass()])
+                new = ast.Try(node.body, [h], [], [])
+                return ast.fix_missing_locations(ast.copy_location(new, node))
+        return node
+
+    @staticmethod
+    def _strip_keys(it):
+        if isinstance(it, ast.Call) and isinstance(it.func, ast.Attribute) and it.func.attr == 'keys' and \
+                not it.args and not it.keywords:
+            return it.func.value
+        return it
+
+    def visit_For(self, node):
+        self.generic_visit(node)
+        node.iter = self._strip_keys(node.iter)
+        return node
+
+    def visit_comprehension(self, node):
+        self.generic_visit(node)
+        node.iter = self._strip_keys(node.iter)
+        return node
+
+    def visit_BoolOp(self, node):
+        self.generic_visit(node)
+        if isinstance(node.op, ast.Or) and len(node.values) >= 2 and all(
+                isinstance(v, ast.Call) and isinstance(v.func, ast.Name) and v.func.id == 'isinstance' and
+                len(v.args) == 2 and not v.keywords for v in node.values) and \
+                len({ast.dump(v.args[0]) for v in node.values}) == 1:
+            types = []
+            for v in node.values:
+                types.extend(v.args[1].elts if isinstance(v.args[1], ast.Tuple) else [v.args[1]])
+            new = ast.Call(ast.Name('isinstance', ast.Load()), [node.values[0].args[0], ast.Tuple(types, ast.Load())], [])
+            return ast.fix_missing_locations(ast.copy_location(new, node))
+        return node
+
+    def visit_Expr(self, node):
+        self.generic_visit(node)
+        c = node.value
+        if isinstance(c, ast.Call) and isinstance(c.func, ast.Attribute) and not c.keywords:
+            if c.func.attr == 'update' and len(c.args) == 1 and isinstance(c.args[0], ast.Dict) and \
+                    len(c.args[0].keys) == 1 and c.args[0].keys[0] is not None:
+                new = ast.Assign([ast.Subscript(c.func.value, c.args[0].keys[0], ast.Store())], c.args[0].values[0])
+                return ast.fix_missing_locations(ast.copy_location(new, node))
+            if c.func.attr == 'pop' and len(c.args) == 1 and not isinstance(c.args[0], ast.Starred) and \
+                    isinstance(c.func.value, (ast.Name, ast.Attribute)) and \
+                    not (isinstance(c.args[0], ast.Constant) and isinstance(c.args[0].value, int)):
+                # (an integer literal is most likely a list position: list.pop(i) and del list[i] agree too)
+                new = ast.Delete([ast.Subscript(c.func.value, c.args[0], ast.Del())])
+                return ast.fix_missing_locations(ast.copy_location(new, node))
+        return node
+
+
+def small_forms(tree):
+    return _SmallForms().visit(tree)
+
+
+def positional_calls(tree):
+    """self.m(p1=a, p2=b) / f(p1=a) -> self.m(a, b) / f(a): arguments that name the leading positional parameters of a
+    method of the same class (or of a base class in this module) or of a function of this module are read by
+    position; keywords that do not continue the positional prefix stay keywords"""
+    n = 0
+    classes = {c.name: c for c in tree.body if isinstance(c, ast.ClassDef)}
+    top = {f.name: f for f in tree.body if isinstance(f, ast.FunctionDef)}
+
+    def params(fn, drop_first):
+        a = fn.args
+        if a.posonlyargs:
+            return None
+        names = [x.arg for x in a.args]
+        return names[1:] if drop_first else names
+
+    def method(cname, name, seen=()):
+        c = classes.get(cname)
+        if c is None or cname in seen:
+            return None
+        for m_ in c.body:
+            if isinstance(m_, ast.FunctionDef) and m_.name == name:
+                static = any(isinstance(d, ast.Name) and d.id == 'staticmethod' for d in m_.decorator_list)
+                if m_.decorator_list and not static and not any(isinstance(d, ast.Name) and d.id == 'classmethod'
+                                                                for d in m_.decorator_list):
+                    return None
+                return params(m_, not static)
+        for b in c.bases:
+            if isinstance(b, ast.Name):
+                r = method(b.id, name, seen + (cname,))
+                if r is not None:
+                    return r
+        return None
+
+    def fix(call, names):
+        nonlocal n
+        if names is None or any(isinstance(a, ast.Starred) for a in call.args) or any(k.arg is None for k in call.keywords):
+            return
+        kw = {k.arg: k for k in call.keywords}
+        moved = []
+        i = len(call.args)
+        while i < len(names) and names[i] in kw:
+            moved.append(kw[names[i]])
+            i += 1
+        if moved:
+            call.args = list(call.args) + [k.value for k in moved]
+            call.keywords = [k for k in call.keywords if k not in moved]
+            n += 1
+
+    for c in classes.values():
+        for node in ast.walk(c):
+            if isinstance(node, ast.Call) and node.keywords and isinstance(node.func, ast.Attribute) and \
+                    isinstance(node.func.value, ast.Name) and node.func.value.id in ('self', 'cls'):
+                fix(node, method(c.name, node.func.attr))
+    for node in ast.walk(tree):
+        if isinstance(node, ast.Call) and node.keywords and isinstance(node.func, ast.Name) and node.func.id in top:
+            fix(node, params(top[node.func.id], False))
+        elif isinstance(node, ast.Call) and node.keywords and isinstance(node.func, ast.Name) and node.func.id in classes:
+            fix(node, method(node.func.id, '__init__'))         # a constructor of this module
+    return n
+
+
 def unpack_form(tree):
     """a = E[0]; b = E[1]; ... (consecutive, E one plain name, all positions from 0 in order)  ->  a, b, ... = E"""
     n = 0
